@@ -151,18 +151,27 @@ def check(prog, run):
     fld = prog.get_class("py_gql.lang.ast", "Field")
     rn = fld.find_method("response_name")
     shapes.require(rn is not None, "C04.K2: ast.Field.response_name not found")
-    rets = [n for n in own_nodes(rn.node) if isinstance(n, ast.Return)]
-    txt = ast.unparse(rets[0].value) if rets else ""
-    r.instance("response_name returns `%s`" % txt)
-    if txt != "self.alias.value if self.alias else self.name.value":
-        ok = False
-        if rets and isinstance(rets[0].value, ast.IfExp):
-            e = rets[0].value
-            t, b, o = ast.unparse(e.test), ast.unparse(e.body), ast.unparse(e.orelse)
-            ok = (t in ("self.alias", "self.alias is not None") and b == "self.alias.value" and o == "self.name.value") or \
-                 (t in ("not self.alias", "self.alias is None") and o == "self.alias.value" and b == "self.name.value")
-        if not ok:
-            run.report(r, "py_gql.lang.ast:Field.response_name:shape", rn.where(), "response_name is not `alias if present else name`")
+    # path form: alias present -> alias.value, absent -> name.value (whatever the statement shape)
+    got = {}
+    for present in (True, False):
+        def decide(t, present=present):
+            if t == "self.alias":
+                return present
+            if t == "self.alias is None":
+                return not present
+            return None
+        try:
+            _ev, rexits = boolx.walk_under(rn.node, decide)
+        except ValueError as e:
+            raise AnalysisError("C04.K2: %s" % e)
+        vals = set()
+        for kind, st, env in rexits:
+            atoms = {a: b for a, b in env.items() if a not in boolx.META}
+            vals.add(ast.unparse(boolx.path_value(env.get(boolx.STMTS, ()), st, st.value, atoms)) if kind == "return" and st.value is not None else "<%s>" % kind)
+        got[present] = vals
+    r.instance("response_name returns %s with an alias, %s without" % (sorted(got[True]), sorted(got[False])))
+    if got[True] != {"self.alias.value"} or got[False] != {"self.name.value"}:
+        run.report(r, "py_gql.lang.ast:Field.response_name:shape", rn.where(), "response_name is not `alias if present else name`")
     # _skip_selection
     sk = prog.get_func(CF, "_skip_selection")
     run.looked_at(sk)
@@ -302,15 +311,21 @@ def check(prog, run):
         for st, env in rets:
             called = {c.func.attr for c in env.get(boolx.CALLS, ()) if isinstance(c.func, ast.Attribute)}
             if not (called & STEP[kind]):
-                cond = ", ".join("%s=%s" % kv for kv in sorted(env.items()) if kv[0] not in (boolx.CALLS, boolx.STMTS) and "isinstance" not in kv[0])
+                cond = ", ".join("%s=%s" % kv for kv in sorted(env.items()) if kv[0] not in boolx.META and "isinstance" not in kv[0])
                 run.report(r, "%s:Executor.complete_value:bypasses(%s)" % (EXE, kind), cv.where(st),
                            "for a non-null value of a %s type complete_value can return `%s` without %s (when %s): the value is not "
                            "completed/serialised as its type prescribes" % (kind, norm_stmt(st, 60), "/".join(sorted(STEP[kind])), cond or "always"))
                 break
-    last = cv.node.body[-1]
-    r.instance("final statement `%s`" % norm_stmt(last, 60))
-    if not isinstance(last, ast.Raise):
-        run.report(r, "%s:Executor.complete_value:no-final-error" % EXE, cv.where(last), "unknown type kinds fall through silently")
+    # a non-null value of a type that is none of the tested kinds: every execution ends in a raise
+    try:
+        _ev, uexits = boolx.walk_under(cv.node, lambda t: False if (t.startswith("isinstance(%s, " % ft) or t == "resolved_value is None") else None)
+    except ValueError as e:
+        raise AnalysisError("C04.K3: %s" % e)
+    silent = [(k, st) for k, st, env in uexits if k != "raise"]
+    r.instance("unknown type kind: %d executions, %d end without raising" % (len(uexits), len(silent)))
+    if silent or not uexits:
+        run.report(r, "%s:Executor.complete_value:no-final-error" % EXE, cv.where(silent[0][1]) if silent and silent[0][1] is not None else cv.where(),
+                   "unknown type kinds fall through silently")
 
     def aev(n):
         if isinstance(n, ast.Call) and isinstance(n.func, ast.Attribute):
@@ -353,16 +368,29 @@ def check(prog, run):
                        "records one ResolverError carrying nodes= and path= and still returns the null", 4)
     hn = prog.get_func(EXE, "Executor._handle_non_nullable_value")
     run.looked_at(hn)
-    ifs = [n for n in own_nodes(hn.node) if isinstance(n, ast.If)]
-    ok = False
-    if len(ifs) == 1 and boolx.text(ifs[0].test) == "resolved_value is None":
-        adds = [n for n in ast.walk(ifs[0]) if isinstance(n, ast.Call) and isinstance(n.func, ast.Attribute) and n.func.attr == "add_error"]
-        if len(adds) == 1 and adds[0].args and isinstance(adds[0].args[0], ast.Call):
-            kws = {k.arg: ast.unparse(k.value) for k in adds[0].args[0].keywords}
-            r.instance("non-null violation error keywords %s" % kws)
-            ok = kws.get("nodes") == "nodes" and kws.get("path") == "path" and ast.unparse(adds[0].args[0].func) == "ResolverError"
-    rets = [n for n in own_nodes(hn.node) if isinstance(n, ast.Return)]
-    ok = ok and len(rets) == 1 and ast.unparse(rets[0].value) == "resolved_value" and rets[0] in hn.node.body
+    from ..canon import Canon, inline_simple_call
+    hcn = Canon(hn.node)
+    value_param = hn.params[-1]
+    ok = True
+    for is_null in (True, False):
+        try:
+            _ev, hexits = boolx.walk_under(hn.node, lambda t, is_null=is_null: is_null if t == "%s is None" % value_param else None)
+        except ValueError as e:
+            raise AnalysisError("C04.K4: %s" % e)
+        for kind, st, env in hexits:
+            adds = [c for c in env.get(boolx.CALLS, ()) if isinstance(c.func, ast.Attribute) and c.func.attr == "add_error"]
+            rv = hcn.text(st.value) if kind == "return" and st.value is not None else None
+            if kind != "return" or rv not in ((value_param, "None") if is_null else (value_param,)) or len(adds) != (1 if is_null else 0):
+                ok = False
+                continue
+            if is_null:
+                err = hcn.expr(adds[0].args[0]) if adds[0].args else None
+                seen = inline_simple_call(prog, hn, err) if err is not None else None
+                err = seen if seen is not None else err
+                kws = {k.arg: ast.unparse(k.value) for k in err.keywords} if isinstance(err, ast.Call) else {}
+                r.instance("non-null violation error keywords %s" % kws)
+                if not (isinstance(err, ast.Call) and ast.unparse(err.func) == "ResolverError" and kws.get("nodes") == hn.params[1] and kws.get("path") == hn.params[2]):
+                    ok = False
     r.instance("_handle_non_nullable_value shape ok: %s" % ok)
     if not ok:
         run.report(r, "%s:Executor._handle_non_nullable_value:shape" % EXE, hn.where(),
@@ -613,9 +641,16 @@ def check_seen_scope(prog, run, rule_id="K5"):
         mloops = [n for n in mg.node.body if isinstance(n, ast.For)]
         shapes.require(len(mloops) == 1, "_merge: loop not found")
 
-        def ev3(n):
-            if isinstance(n, ast.Call) and isinstance(n.func, ast.Attribute) and n.func.attr == "extend" and isinstance(n.func.value, ast.Subscript):
-                return "extend"
+        from ..canon import Canon
+        mcn = Canon(mg.node)
+        into_param = set(mg.all_params)
+
+        def ev3(n, mcn=mcn, into_param=into_param):
+            # `into[key].extend(...)`, directly or through a local bound to `into[key]`
+            if isinstance(n, ast.Call) and isinstance(n.func, ast.Attribute) and n.func.attr == "extend":
+                recv = mcn.expr(n.func.value)
+                if isinstance(recv, ast.Subscript) and isinstance(recv.value, ast.Name) and recv.value.id in into_param:
+                    return "extend"
             if isinstance(n, ast.AugAssign) and isinstance(n.op, ast.Add) and isinstance(n.target, ast.Subscript):
                 return "extend"
             return None
@@ -678,7 +713,7 @@ def check_default_resolver(prog, run):
             run.report(r, "py_gql.execution.default_resolver:default_resolver:mapping-getattr", f.where(n),
                        "with a mapping parent (%s) `%s` is still evaluated: a key missing from the mapping falls through to the "
                        "mapping's own attributes (items, keys, get, ...), which are then called with (context, info)"
-                       % (", ".join("%s=%s" % kv for kv in sorted(env.items()) if kv[0] != boolx.CALLS), boolx.text(n)))
+                       % (", ".join("%s=%s" % kv for kv in sorted(env.items()) if kv[0] not in boolx.META), boolx.text(n)))
         if isinstance(n.func, ast.Name) and n.func.id in local_values and n.func.id not in defaults:
             run.report(r, "py_gql.execution.default_resolver:default_resolver:mapping-call(%s)" % n.func.id, f.where(n),
                        "with a mapping parent the looked-up value `%s` is called" % n.func.id)
@@ -725,7 +760,7 @@ def check_add_error(prog, run, r):
         raise AnalysisError("add_error: %s" % e)
     r.instance("add_error: %d executions with a path given" % len(exits))
     for kind, st, env in exits:
-        atoms = {k: v for k, v in env.items() if k not in (boolx.CALLS, boolx.STMTS)}
+        atoms = {k: v for k, v in env.items() if k not in boolx.META}
         appended = any(isinstance(c.func, ast.Attribute) and c.func.attr == "append" and c.args and ast.unparse(c.args[0]) == err
                        for c in env.get(boolx.CALLS, ()))
         val = None
